@@ -30,6 +30,23 @@ def result_summary(r):
     return str(type(r))
 
 
+def same_result(a, b):
+    """structural equality of two Result values built from tokens / paths / ints"""
+    if a is b:
+        return True
+    if type(a) is not type(b):
+        return False
+    if type(a) is Enum:
+        return a.ty == b.ty and a.variant == b.variant and len(a.fields) == len(b.fields) and all(same_result(x, y) for x, y in zip(a.fields, b.fields))
+    if type(a) is Tup:
+        return len(a.fields) == len(b.fields) and all(same_result(x, y) for x, y in zip(a.fields, b.fields))
+    if type(a) is Opaque:
+        return a.kind == b.kind and a.data == b.data
+    if type(a) is PathV:
+        return a.s == b.s
+    return a == b
+
+
 def wrapper_case(which, lib, via_str):
     """parse_sv / parse_lib / parse_sv_str / parse_lib_str"""
     name = 'parse_%s%s' % ('lib' if lib else 'sv', '_str' if via_str else '')
@@ -63,8 +80,19 @@ def wrapper_case(which, lib, via_str):
             return err(Opaque('ERR', 'pp-error'))
 
         def stub_pp(it, ci, a, d, rec):
+            # result of parse_X_pp: Ok(tree) | Err(Parse(None)) | Err(Parse(Some(origin))) -- a wrapper that looks into it (or
+            # rewrites it) meets real Result / Error values; it must hand back exactly what it got
             rec.calls.append((ppname, list(a)))
-            return Opaque('RESULT', 'final-result')
+            td = it.prog.td
+            k = it.choose([z3.Int('pp_result') == i for i in range(3)], 'pp_result')
+            if k == 0:
+                r = ok(Tup([Opaque('TREE', 'tree-token'), Opaque('DEFS', 'defs-token')]))
+            elif k == 1:
+                r = err(Enum('Error', 'Parse', td.variant_index('Error', 'Parse'), [none()]))
+            else:
+                r = err(Enum('Error', 'Parse', td.variant_index('Error', 'Parse'), [some(Tup([PathV('orig.sv'), 7]))]))
+            rec.pp_result = r
+            return r
 
         def stub_other(it, ci, a, d, rec):
             # a wrapper that goes through another route than the one documented (e.g. reads the file itself and calls the
@@ -74,7 +102,7 @@ def wrapper_case(which, lib, via_str):
                 if it.decide(z3.Bool('pp_ok'), 'pp_ok'):
                     return ok(Tup([Opaque('PT', 'pt-token'), Opaque('DEFS', 'defs-token')]))
                 return err(Opaque('ERR', 'pp-error'))
-            return Opaque('RESULT', 'final-result')
+            return stub_pp(it, ci, a, d, rec)
 
         def check(it, r, rec, s):
             notes = []
@@ -106,8 +134,9 @@ def wrapper_case(which, lib, via_str):
                         notes.append('%s: %s.defines is not the table returned by the preprocessor' % (name, ppname))
                     if A.differs(it, g.get('allow_incomplete'), s['inc']):
                         notes.append('%s passes %r as %s.allow_incomplete' % (name, g.get('allow_incomplete'), ppname))
-                    if not (type(r) is Opaque and r.data == 'final-result'):
-                        notes.append('%s does not return the result of %s' % (name, ppname))
+                    want = getattr(rec, 'pp_result', None)
+                    if want is None or A.differs(it, r, want) and not same_result(r, want):
+                        notes.append('%s does not return the result of %s unchanged: %r instead of %r' % (name, ppname, r, want))
             else:
                 if ppc:
                     notes.append('%s calls %s although preprocessing failed' % (name, ppname))
